@@ -22,16 +22,17 @@ OVERLAY = {
 }
 
 
-def mc_module(base, name, nreads, sess, fails):
+def mc_module(base, name, nreads, sess, fails, rot=()):
     reads = "{" + ", ".join(str(i) for i in range(1, nreads + 1)) + "}"
     sessf = "<<" + ", ".join(str(s) for s in sess) + ">>"
     failss = "{" + ", ".join(str(f) for f in fails) + "}"
-    return ("---- MODULE %s ----\nEXTENDS %s\nGReads == %s\nGSess == %s\nGFails == %s\n====\n"
-            % (name, base, reads, sessf, failss))
+    rots = "{" + ", ".join(str(f) for f in rot) + "}"
+    return ("---- MODULE %s ----\nEXTENDS %s\nGReads == %s\nGSess == %s\nGFails == %s\nGRot == %s\n====\n"
+            % (name, base, reads, sessf, failss, rots))
 
 
 def cfg(spec, cap, kf, extra_consts="", invariants="", props=""):
-    s = "SPECIFICATION %s\nCONSTANTS\n  Reads <- GReads\n  Cap = %d\n  SessOf <- GSess\n  Fails <- GFails\n" % (spec, cap)
+    s = "SPECIFICATION %s\nCONSTANTS\n  Reads <- GReads\n  Cap = %d\n  SessOf <- GSess\n  Fails <- GFails\n  Rotatable <- GRot\n" % (spec, cap)
     s += "  KF_CancelDrainsToken = %s\n%s" % ("TRUE" if kf else "FALSE", extra_consts)
     if invariants:
         s += "INVARIANTS %s\n" % invariants
@@ -40,9 +41,10 @@ def cfg(spec, cap, kf, extra_consts="", invariants="", props=""):
     return s
 
 
-def gen_schedules(wd, nreads, cap, sess, fails, kf, maxcancel):
-    files = {"GSched.tla": mc_module("LimiterSched", "GSched", nreads, sess, fails),
-             "GSched.cfg": cfg("SSpec", cap, kf, "  MaxCancel = %d\n" % maxcancel, "Emit")}
+def gen_schedules(wd, nreads, cap, sess, fails, kf, maxcancel, maxrotate=0):
+    rot = list(range(1, nreads + 1)) if maxrotate else []
+    files = {"GSched.tla": mc_module("LimiterSched", "GSched", nreads, sess, fails, rot),
+             "GSched.cfg": cfg("SSpec", cap, kf, "  MaxCancel = %d\n  MaxRotate = %d\n" % (maxcancel, maxrotate), "Emit")}
     r = vlib.tlc(wd, "GSched", "GSched.cfg", workers=4, files=files, timeout=900)
     if not r.ok:
         raise vlib.Inconclusive("schedule generation failed: %s %s" % (r.violated, (r.error or "")[-800:]))
@@ -51,7 +53,7 @@ def gen_schedules(wd, nreads, cap, sess, fails, kf, maxcancel):
         if line.startswith('"{'):
             h = json.loads(json.loads(line))
             key = tuple((s["a"], s["id"]) for s in h["steps"])
-            obs = [(s["obs"]["tokens"], s["obs"]["open"]) for s in h["steps"]] + [(h["final"]["tokens"], h["final"]["open"])]
+            obs = [(s["obs"]["tokens"], s["obs"]["open"], s["obs"]["retrying"]) for s in h["steps"]] + [(h["final"]["tokens"], h["final"]["open"], h["final"]["retrying"])]
             waiting = [s["obs"]["waiting"] for s in h["steps"]]
             e = scheds.setdefault(key, {"allowed": [set() for _ in obs], "waitcancel": False})
             for i, o in enumerate(obs):
@@ -60,6 +62,8 @@ def gen_schedules(wd, nreads, cap, sess, fails, kf, maxcancel):
             for i, s in enumerate(h["steps"]):
                 if s["a"] == "cancel" and waiting[i] > 0:
                     e["waitcancel"] = True
+                if s["a"] == "rotate" and waiting[i] > 0:
+                    e["rotwait"] = True      # a follow loses its file while another read is queued behind it
     return scheds, r
 
 
@@ -84,6 +88,13 @@ def run(tier, replay):
             transitions += r.generated
             tlc_runs.append({"cfg": "strict n=%d cap=%d sess=%s fails=%s" % (n, cap, sess, fails), **r.as_dict()})
             log("TLC strict n=%d cap=%d: %d distinct states, ok" % (n, cap, r.distinct))
+        # follows whose file is rotated away keep their slot in the retry loop (safety only: such a read ends only when cancelled)
+        files = {"GMC.tla": mc_module("Limiter", "GMC", 3, [1, 2, 3], [], [1, 2, 3]),
+                 "GMC.cfg": cfg("Spec", 1 if tier == "quick" else 2, False, "", "TypeOK NeverOverLimit TokensMatch")}
+        r = vlib.tlc_must_pass(wd, "GMC", "GMC.cfg", files=files, timeout=1200)
+        states += r.distinct
+        transitions += r.generated
+        tlc_runs.append({"cfg": "strict n=3 with rotation (retry loop)", **r.as_dict()})
         # the deviation model must show the defect at design level as long as the finding is open
         if kf_open:
             files = {"GMC.tla": mc_module("Limiter", "GMC", 3, [1, 2, 3], []),
@@ -94,26 +105,57 @@ def run(tier, replay):
                 raise vlib.Inconclusive("KF model does not show the deviation: %s" % r.violated)
 
         # ---- 2. schedules from TLC
+        # the last two entries of each list: sessions with several reads - as separate commands, and as the files of one glob
         if tier == "quick":
-            gens = [(3, 1, [1, 2, 3], [], 2, "cat", 90), (3, 1, [1, 2, 3], [2], 1, "grep", 50), (3, 2, [1, 2, 3], [], 3, "tail", 20)]
+            gens = [(3, 1, [1, 2, 3], [], 2, "cat", 90), (3, 1, [1, 2, 3], [2], 1, "grep", 50), (3, 2, [1, 2, 3], [], 3, "tail", 20),
+                    (4, 2, [1, 2, 2, 3], [], 1, "cat", 30), (4, 2, [1, 2, 2, 3], [], 1, "catglob", 40), (3, 1, [1, 2, 3], [], 3, "tailrot", 8)]
         else:
             gens = [(3, 1, [1, 2, 3], [], 3, "cat", 100000), (3, 1, [1, 2, 3], [2], 2, "grep", 100000),
                     (3, 1, [1, 2, 3], [1, 3], 1, "cat", 100000),
                     (4, 2, [1, 2, 3, 4], [3], 1, "cat", 700), (4, 1, [1, 2, 3, 4], [2], 1, "cat", 700),
-                    (3, 2, [1, 2, 3], [], 3, "tail", 200), (4, 1, [1, 2, 3, 4], [], 4, "tail", 200)]
+                    (3, 2, [1, 2, 3], [], 3, "tail", 200), (4, 1, [1, 2, 3, 4], [], 4, "tail", 200),
+                    (4, 2, [1, 2, 2, 3], [], 2, "cat", 400), (4, 2, [1, 2, 2, 3], [], 2, "catglob", 400), (4, 1, [1, 1, 2, 2], [], 2, "catglob", 300),
+                    (5, 2, [1, 2, 2, 2, 3], [], 1, "catglob", 300), (4, 2, [1, 2, 2, 3], [], 2, "tailglob", 150),
+                    (3, 1, [1, 2, 3], [], 3, "tailrot", 60), (3, 2, [1, 2, 3], [], 3, "tailrot", 60)]
         cases = []
         meta = {}
         nsched_total = 0
         for gi, (n, cap, sess, fails, maxc, mode, limit) in enumerate(gens):
-            ref, r = gen_schedules(wd, n, cap, sess, fails, False, maxc)
+            rotate = mode.endswith("rot")
+            mode = mode.replace("rot", "")
+            ref, r = gen_schedules(wd, n, cap, sess, fails, False, maxc, 1 if rotate else 0)
             states += r.distinct
             transitions += r.generated
             impl = None
             if kf_open:
-                impl, r2 = gen_schedules(wd, n, cap, sess, fails, True, maxc)
+                impl, r2 = gen_schedules(wd, n, cap, sess, fails, True, maxc, 1 if rotate else 0)
             keys = sorted(ref.keys())
+            glob = mode.endswith("glob")
+            mode = mode.replace("glob", "")
             if mode == "tail":
                 keys = [k for k in keys if not any(a == "finish" for a, _ in k)]
+            if rotate:
+                keys = [k for k in keys if any(a == "rotate" for a, _ in k)]
+                pref = [k for k in keys if ref[k].get("rotwait")]
+                if len(pref) >= limit:
+                    keys = pref
+            multi = {s_ for s_ in sess if sess.count(s_) > 1}
+            if multi:
+                # draining is per session: a single read of a session with several reads cannot be finished on its own
+                keys = [k for k in keys if not any(a == "finish" and sess[i - 1] in multi for a, i in k)]
+            if glob:
+                # the files of one command enter together: the enter steps of a session must be contiguous
+                def contiguous(k):
+                    seen, last = set(), None
+                    for a, i in k:
+                        cur = sess[i - 1] if a == "enter" else None
+                        if cur is not None and cur != last and cur in seen:
+                            return False
+                        if cur is not None:
+                            seen.add(cur)
+                        last = cur
+                    return True
+                keys = [k for k in keys if contiguous(k)]
             nsched_total += len(keys)
             nontrivial = [k for k in keys if ref[k]["waitcancel"] or any(i in fails for a, i in k if a == "enter")]
             trivial = [k for k in keys if k not in set(nontrivial)]
@@ -125,10 +167,11 @@ def run(tier, replay):
                 cid = len(cases) + 1
                 cases.append({"id": cid, "cap": cap, "mode": mode, "sessof": sess, "fails": fails,
                               "steps": [{"a": a, "id": i} for a, i in k], "lines": 400,
-                              "names": rng.randrange(1 << 30)})
+                              "names": rng.randrange(1 << 30), "glob": glob})
                 meta[cid] = {"gen": gi, "key": k, "ref": ref[k]["allowed"],
                              "impl": impl[k]["allowed"] if impl and k in impl else None,
-                             "nontrivial": k in set(nontrivial), "n": n, "cap": cap, "sess": sess, "fails": fails, "mode": mode}
+                             "nontrivial": k in set(nontrivial) or rotate, "n": n, "cap": cap, "sess": sess, "fails": fails, "mode": mode,
+                             "rot": list(range(1, n + 1)) if rotate else []}
             log("schedules n=%d cap=%d fails=%s mode=%s: %d complete schedules from TLC, %d replayed" %
                 (n, cap, fails, mode, len(keys), len(chosen)))
 
@@ -151,16 +194,18 @@ def run(tier, replay):
             if res.get("problem"):
                 problems += 1
                 continue
-            obs = [(o["tokens"], o["open"]) for o in res["obs"]]
+            obs = [(o["tokens"], o["open"], o.get("retrying", 0)) for o in res["obs"]]
             bad = []
             if res["maxopen"] > c["cap"]:
                 bad.append("more files open (%d) than the limit (%d)" % (res["maxopen"], c["cap"]))
-            for i, (tok, op) in enumerate(obs):
-                if tok != op:
-                    bad.append("step %d: len(limiter)=%d but %d file(s) being read" % (i, tok, op))
+            # every file being read owns a slot and no slot is owned by nobody; a follow in its retry loop (file rotated
+            # away) may or may not keep its slot while it sleeps - the statement does not say, the code keeps it
+            for i, (tok, op, rt) in enumerate(obs):
+                if not (op <= tok <= op + rt):
+                    bad.append("step %d: len(limiter)=%d but %d file(s) being read and %d read(s) in the retry loop" % (i, tok, op, rt))
                     break
-            if obs and obs[-1] != (0, 0):
-                bad.append("at the end: len(limiter)=%d, files open=%d" % obs[-1])
+            if obs and obs[-1][:2] != (0, 0):
+                bad.append("at the end: len(limiter)=%d, files open=%d" % obs[-1][:2])
             if res.get("stuck"):
                 bad.append("reads never finished: %s" % res["stuck"])
             if c["mode"] != "tail":
@@ -170,16 +215,23 @@ def run(tier, replay):
                         got = res["delivered"].get(str(s["id"]), 0)
                         if got != c["lines"]:
                             bad.append("read %d delivered %d of %d lines" % (s["id"], got, c["lines"]))
+            # in a glob case the reads of a session enter together: the observations between its enter steps are not comparable
+            skip = set()
+            if c.get("glob"):
+                for i in range(1, len(c["steps"])):
+                    a, b = c["steps"][i - 1], c["steps"][i]
+                    if a["a"] == "enter" and b["a"] == "enter" and c["sessof"][a["id"] - 1] == c["sessof"][b["id"] - 1]:
+                        skip.add(i)
             div = res.get("diverged")
             if div:
                 # the real run left the TLC behaviour; the last observation is the final one (after the epilogue)
                 V.diverge("case %d: %s" % (res["id"], div))
                 pre = obs[:-1]
-                in_ref = all(o in m["ref"][i] for i, o in enumerate(pre))
-                in_impl = m["impl"] is not None and all(o in m["impl"][i] for i, o in enumerate(pre))
+                in_ref = all(o in m["ref"][i] for i, o in enumerate(pre) if i not in skip)
+                in_impl = m["impl"] is not None and all(o in m["impl"][i] for i, o in enumerate(pre) if i not in skip)
             else:
-                in_ref = all(o in m["ref"][i] for i, o in enumerate(obs)) if len(obs) == len(m["ref"]) else False
-                in_impl = m["impl"] is not None and len(obs) == len(m["impl"]) and all(o in m["impl"][i] for i, o in enumerate(obs))
+                in_ref = all(o in m["ref"][i] for i, o in enumerate(obs) if i not in skip) if len(obs) == len(m["ref"]) else False
+                in_impl = m["impl"] is not None and len(obs) == len(m["impl"]) and all(o in m["impl"][i] for i, o in enumerate(obs) if i not in skip)
             res["_bad"], res["_in_ref"], res["_in_impl"] = bad, in_ref, in_impl
             traces[res["id"]] = res["trace"]
             if bad:
@@ -193,17 +245,17 @@ def run(tier, replay):
         groups = {}
         for cid, tr in traces.items():
             m = meta[cid]
-            groups.setdefault((m["n"], m["cap"], tuple(m["sess"]), tuple(m["fails"])), []).append(cid)
+            groups.setdefault((m["n"], m["cap"], tuple(m["sess"]), tuple(m["fails"]), tuple(m.get("rot") or ())), []).append(cid)
         accepted_strict, accepted_kf = set(), set()
         validated = 0
-        for (n, cap, sess, fails), cids in sorted(groups.items()):
+        for (n, cap, sess, fails, rot), cids in sorted(groups.items()):
             recs = []
             for cid in cids:
                 evs = [{"ev": e["ev"], "id": int(e.get("r", e.get("s", 0))), "took": int(e.get("took", 0) or 0)} for e in traces[cid]]
                 recs.append({"id": cid, "ev": evs})
             vlib.write_ndjson(os.path.join(wd, "c13_traces.ndjson"), recs)
             for kf in ([False, True] if kf_open else [False]):
-                files = {"GTrace.tla": mc_module("LimiterTrace", "GTrace", n, list(sess), list(fails)),
+                files = {"GTrace.tla": mc_module("LimiterTrace", "GTrace", n, list(sess), list(fails), list(rot)),
                          "GTrace.cfg": cfg("TSpec", cap, kf, "", "Report")}
                 r = vlib.tlc(wd, "GTrace", "GTrace.cfg", files=files, timeout=1200)
                 if not r.ok:
